@@ -429,6 +429,80 @@ Proof.
   eexists. split; [reflexivity|]. split; [exact W1|]. split; [exact Hn|reflexivity].
 Qed.
 
+(* ... and the index it builds is exactly the file's: record k sits in slot k, on a chain, and nothing else is indexed
+   (MAX_USERS <= PRE_ALLOCATED_USERS: no record is skipped by the free-slot cap) *)
+Lemma MAXU_le_PREALLOC : MAXU <= PREALLOC.
+Proof. vm_compute. discriminate. Qed.
+
+Lemma userec_add_cold_exact s cnt i id : WF s -> in_range i = true -> ~ on_chain s i -> 0 <= cnt <= i ->
+  exists s' cnt', userec_add s cnt i id false = Ok (s', cnt') /\ WF s' /\ idf s' i = id /\ (forall x, x <> i -> idf s' x = idf s x) /\
+    (forall x, on_chain s' x <-> on_chain s x \/ x = i) /\ 0 <= cnt' <= i + 1 /\ number s' = number s /\ loaded s' = loaded s.
+Proof.
+  intros W Hr Hfree Hcnt. unfold userec_add. cbv zeta.
+  pose proof Hr as Hr'. apply in_range_spec in Hr'. pose proof MAXU_le_PREALLOC as HP.
+  assert (Hc1 : 0 <= (if is_valid_id id then cnt else cnt + 1) <= i + 1) by (destruct (is_valid_id id); lia).
+  destruct (Z.ltb_spec PREALLOC (if is_valid_id id then cnt else cnt + 1)) as [Hbad|_]; [lia|]. rewrite andb_false_r.
+  rewrite Hr. cbn [negb orb].
+  set (h := uhash id). set (s1 := set_id s i id).
+  destruct (WF_bucket s h W (uhash_ok id)) as [l0 [Hc [Hnd [Hrange [_ Hlen]]]]].
+  change (next s1) with (next s). change (tget (head s1) h) with (hd s h).
+  rewrite (load_walk_chain (next s) false i (hd s h) l0 Hc Hrange FUEL_LOADER false h (fuel_loader_ok l0 Hlen)).
+  cbn [andb].
+  assert (Hid1 : idf s1 i = id) by (unfold idf, s1; cbn [set_id ids]; apply tget_tset_same).
+  assert (Hoth1 : forall x, x <> i -> idf s1 x = idf s x) by (intros x Hx; unfold idf, s1; cbn [set_id ids]; apply tget_tset_other; exact Hx).
+  destruct (link_state_wf s s1 i h l0 W Hr Hfree (uhash_ok id) eq_refl eq_refl) as [W' [Hids [Hon [Hn Hl]]]];
+    [rewrite Hid1; reflexivity|exact Hoth1|exact Hc|].
+  exists (link_state s1 l0 h i). eexists. split.
+  - unfold link_state. destruct (tail_ptr l0 false h) as [isn p]. reflexivity.
+  - split; [exact W'|]. split; [rewrite Hids; exact Hid1|]. split; [intros x Hx; rewrite Hids; apply Hoth1; exact Hx|].
+    split; [exact Hon|]. split; [exact Hc1|]. split; assumption.
+Qed.
+
+Lemma fill_records_cold_exact : forall recs s cnt i, WF s -> 0 <= i -> i + lenZ recs <= MAXU -> fresh_from s i -> 0 <= cnt <= i ->
+  exists s', fill_records s cnt i recs false = Ok s' /\ WF s' /\
+    (forall k id, nth_error recs k = Some id -> idf s' (i + Z.of_nat k) = id) /\
+    (forall x, ~ (i <= x < i + lenZ recs) -> idf s' x = idf s x) /\
+    (forall x, on_chain s' x <-> on_chain s x \/ i <= x < i + lenZ recs) /\ number s' = number s /\ loaded s' = loaded s.
+Proof.
+  induction recs as [|id r IH]; intros s cnt i W Hi Hlen Hfresh Hcnt; cbn [fill_records].
+  - exists s. split; [reflexivity|]. split; [exact W|]. split; [intros [|k] id0 E; discriminate|]. split; [reflexivity|].
+    split; [|auto]. intros x. unfold lenZ; cbn [length]. split; [auto|]. intros [H|H]; [exact H|lia].
+  - rewrite lenZ_cons in Hlen. assert (Hl0 : 0 <= lenZ r) by (unfold lenZ; lia).
+    assert (Hr : in_range i = true) by (apply in_range_spec; lia).
+    destruct (userec_add_cold_exact s cnt i id W Hr (Hfresh i (Z.le_refl i)) Hcnt) as [s1 [cnt1 [E [W1 [Hid1 [Hoth1 [Hon1 [Hc1 [Hn1 Hld1]]]]]]]]]. rewrite E.
+    destruct (IH s1 cnt1 (i + 1) W1) as [s' [E' [W' [Hids [Hrest [Hon' [Hn Hl]]]]]]]; [lia|lia| |lia|].
+    + intros x Hx Hon. apply Hon1 in Hon. destruct Hon as [H|H]; [apply (Hfresh x); [lia|exact H]|lia].
+    + exists s'. split; [exact E'|]. split; [exact W'|]. rewrite lenZ_cons. split; [|split; [|split; [|split; congruence]]].
+      * intros [|k] id0 Ek; cbn [nth_error] in Ek.
+        -- inversion Ek; subst id0. rewrite Z.add_0_r. rewrite Hrest by lia. exact Hid1.
+        -- replace (i + Z.of_nat (S k)) with (i + 1 + Z.of_nat k) by lia. apply Hids. exact Ek.
+      * intros x Hx. rewrite Hrest by lia. apply Hoth1. lia.
+      * intros x. rewrite Hon', Hon1. split; [intros [[H|H]|H]; [left; exact H|right; lia|right; lia]|].
+        intros [H|H]; [left; left; exact H|]. destruct (Z.eq_dec x i) as [->|Hne]; [left; right; reflexivity|right; lia].
+Qed.
+
+Lemma cold_load_exact s0 recs : lenZ recs <= MAXU ->
+  exists s', load_uhash (unload s0) recs = Ok s' /\ WF s' /\ number s' = lenZ recs /\ loaded s' = 1 /\
+    (forall k id, nth_error recs k = Some id -> idf s' (Z.of_nat k) = id) /\
+    (forall x, ~ (0 <= x < lenZ recs) -> idf s' x = idf s0 x) /\
+    (forall x, on_chain s' x <-> 0 <= x < lenZ recs).
+Proof.
+  intros Hlen. unfold load_uhash.
+  change (number (unload s0)) with 0. change (loaded (unload s0)) with 0. cbn [Z.eqb andb].
+  unfold fill_uhash, init_fill.
+  set (s1 := mkst (tconst (-1)) (next (unload s0)) (ids (unload s0)) (number (unload s0)) (loaded (unload s0))).
+  assert (Hd0 : forall h, hd s1 h = -1) by (intros h; unfold hd, s1; cbn [head]; apply tget_tconst).
+  assert (W0 : WF s1).
+  { intros h Hh. exists []. rewrite Hd0. split; [constructor|]. split; [constructor|]. intros x []. }
+  assert (N0 : forall x, ~ on_chain s1 x).
+  { intros x [h [l [Hh [Hc Hin]]]]. rewrite Hd0 in Hc. inversion Hc; subst; [destruct Hin|congruence]. }
+  destruct (fill_records_cold_exact recs s1 0 0 W0 (Z.le_refl 0)) as [s2 [E [W2 [Hids [Hrest [Hon [Hn Hl]]]]]]]; [lia|intros x _; apply N0|lia|].
+  rewrite E. eexists. split; [reflexivity|]. split; [exact W2|]. split; [reflexivity|]. split; [reflexivity|].
+  split; [intros k id Ek; apply (Hids k id Ek)|]. split.
+  - intros x Hx. change (idf s2 x = idf s1 x). apply Hrest. exact Hx.
+  - intros x. change (on_chain s2 x <-> 0 <= x < lenZ recs). rewrite Hon. split; [intros [H|H]; [destruct (N0 x H)|exact H]|intros H; right; exact H].
+Qed.
+
 (* ------------------------------------------------------------------ reload into a populated segment *)
 Lemma check_hash_wf s h : WF s -> hash_ok h -> check_hash s h = Ok s.
 Proof.
@@ -601,6 +675,126 @@ Proof.
   - intros q. destruct (search_total s q W) as [v [E _]]. exists v. exact E.
 Qed.
 
+(* ------------------------------------------------------------------ who loads: the creator or a second, attached process *)
+Lemma unload_same s : number s = 0 -> loaded s = 0 -> unload s = s.
+Proof. destruct s as [h n i nb ld]. cbn [number loaded unload head next ids]. intros -> ->. reflexivity. Qed.
+
+(* LoadUHash by ANY process p (creator or not) terminates and leaves a well-formed index in which every lookup terminates:
+   (1) on a segment that says Number = Loaded = 0 - freshly created and zeroed, created by somebody else and never loaded,
+       unloaded with arbitrary garbage left behind; (2) on a well-formed segment, from an agreeing file *)
+Lemma load_any_process (p : proc) s recs : lenZ recs <= MAXU ->
+  (number s = 0 -> loaded s = 0 ->
+     exists s', load_uhash_by p s recs = Ok s' /\ WF s' /\ number s' = lenZ recs /\ loaded s' = 1 /\ (forall q, exists v, search_user_raw s' q = Ok v) /\
+       (forall k id, nth_error recs k = Some id -> idf s' (Z.of_nat k) = id) /\ (forall x, on_chain s' x <-> 0 <= x < lenZ recs)) /\
+  (WF s -> agrees s recs ->
+     exists s', load_uhash_by p s recs = Ok s' /\ WF s' /\ number s' = lenZ recs /\ (forall q, exists v, search_user_raw s' q = Ok v)).
+Proof.
+  intros Hlen. unfold load_uhash_by. split.
+  - intros Hn Hl. destruct (cold_load_exact s recs Hlen) as [s' [E [W' [Hn' [Hl' [Hids [_ Hon]]]]]]]. rewrite (unload_same s Hn Hl) in E.
+    exists s'. split; [exact E|]. split; [exact W'|]. split; [exact Hn'|]. split; [exact Hl'|].
+    split; [|split; [exact Hids|exact Hon]].
+    intros q. destruct (search_total s' q W') as [v [Ev _]]. exists v. exact Ev.
+  - intros W Hag. destruct (reload_wf s recs W Hlen Hag) as [s' [E [W' Hn']]].
+    exists s'. split; [exact E|]. split; [exact W'|]. split; [exact Hn'|].
+    intros q. destruct (search_total s' q W') as [v [Ev _]]. exists v. exact Ev.
+Qed.
+
+Lemma attach_ok_header b : attach (mkseg cache.SHM_VERSION cache.SHM_RAW_SZ b) = Attached b.
+Proof. unfold attach. cbn [seg_version seg_size seg_body]. rewrite !Z.eqb_refl. reflexivity. Qed.
+
+Lemma reset_not_wf : ~ WF reset_st.
+Proof.
+  intros W. destruct (W 0) as [l [Hc [Hnd Hx]]]; [unfold hash_ok; pose proof HASHN_pos; lia|].
+  unfold hd, reset_st in Hc. cbn [head] in Hc. rewrite tget_tconst in Hc. inversion Hc as [|p l' Hp Hc' E1 E2]; subst.
+  destruct (Hx 0 (or_introl eq_refl)) as [_ Hh]. vm_compute in Hh. discriminate.
+Qed.
+
+(* the start-up interleaving / crash point: process 1 creates the segment (zeroed, header written) and has not loaded it;
+   process 2 - started with or without the create flag - attaches, finds IsNew = false and an index that is NOT well-formed
+   (every head points at slot 0), and its LoadUHash builds the well-formed index of .PASSWDS *)
+Lemma second_process_loads_created_segment (is_create : bool) recs : lenZ recs <= MAXU ->
+  exists p2 v, new_shm_existing is_create (snd new_shm_create) = (p2, Attached v) /\ p_is_new (fst new_shm_create) = true /\
+    p_is_new p2 = false /\ v = reset_st /\ ~ WF v /\
+    exists s', load_uhash_by p2 v recs = Ok s' /\ WF s' /\ number s' = lenZ recs /\ loaded s' = 1 /\
+      (forall q, exists u, search_user_raw s' q = Ok u) /\
+      (forall k id, nth_error recs k = Some id -> idf s' (Z.of_nat k) = id) /\ (forall x, on_chain s' x <-> 0 <= x < lenZ recs).
+Proof.
+  intros Hlen. exists (mkproc false), reset_st. unfold new_shm_existing, new_shm_create. cbn [fst snd].
+  rewrite attach_ok_header. split; [reflexivity|]. split; [reflexivity|]. split; [reflexivity|]. split; [reflexivity|].
+  split; [exact reset_not_wf|].
+  destruct (load_any_process (mkproc false) reset_st recs Hlen) as [H _]. apply H; reflexivity.
+Qed.
+
+(* why the decision has to be the segment's Number / Loaded: the on-the-fly branch on the created-but-not-loaded segment never ends.
+   Every bucket h other than the empty id's is the self-loop 0 -> 0 whose node does not belong there; checkHash unlinks slot 0
+   by storing its successor - slot 0 - and meets it again, for any amount of fuel *)
+Lemma check_walk_self_loop h : forall fuel s, tget (next s) 0 = 0 -> uhash (tget (ids s) 0) <> h ->
+  check_walk fuel s h false h 0 = Hang.
+Proof.
+  induction fuel as [|f IH]; intros s Hnx Hh; [reflexivity|].
+  cbn [check_walk]. change (0 =? -1) with false. change ((0 <? -1) || (MAXU <=? 0)) with false. cbv iota.
+  destruct (Z.eqb_spec (uhash (tget (ids s) 0)) h) as [E|_]; [contradiction|]. cbn [negb]. cbv zeta. rewrite Hnx.
+  apply IH; cbn [set_link set_head next ids]; assumption.
+Qed.
+
+Lemma onfly_on_created_segment_hangs :
+  (forall fuel, check_walk fuel reset_st 0 false 0 (tget (head reset_st) 0) = Hang) /\
+  (forall recs, fill_uhash reset_st recs true = Hang).
+Proof.
+  assert (Hnx : tget (next reset_st) 0 = 0) by (unfold reset_st; cbn [next]; apply tget_tconst).
+  assert (Hh : uhash (tget (ids reset_st) 0) <> 0) by (unfold reset_st; cbn [ids]; rewrite tget_tconst; vm_compute; discriminate).
+  assert (Hhd : tget (head reset_st) 0 = 0) by (unfold reset_st; cbn [head]; apply tget_tconst).
+  split.
+  - intros fuel. rewrite Hhd. apply check_walk_self_loop; assumption.
+  - intros recs. unfold fill_uhash, init_fill.
+    assert (Hpos : (0 < Z.to_nat HASHN)%nat) by (pose proof HASHN_pos; lia).
+    destruct (Z.to_nat HASHN) as [|n]; [lia|]. cbn [check_from]. unfold check_hash. rewrite Hhd.
+    rewrite (check_walk_self_loop 0 FUEL_LOADER reset_st Hnx Hh). reflexivity.
+Qed.
+
+(* histories in which every step is executed by some process - the creator or any attached one; all of them act on the same memory *)
+Inductive reachable_mp : st -> Prop :=
+| m_cold (p : proc) s0 recs s : lenZ recs <= MAXU -> number s0 = 0 -> loaded s0 = 0 -> load_uhash_by p s0 recs = Ok s -> reachable_mp s   (* ANY content otherwise *)
+| m_set (p : proc) s uid id s' e : reachable_mp s -> set_user_id s uid id = Ok (s', e) -> reachable_mp s'
+| m_remove (p : proc) s slot s' e : reachable_mp s -> in_range slot = true -> remove_from_uhash s slot = Ok (s', e) -> reachable_mp s'
+| m_add (p : proc) s slot id s' e : reachable_mp s -> in_range slot = true -> ~ on_chain s slot -> add_to_uhash s slot id = Ok (s', e) -> reachable_mp s'
+| m_reload (p : proc) s recs s' : reachable_mp s -> lenZ recs <= MAXU -> agrees s recs -> load_uhash_by p s recs = Ok s' -> reachable_mp s'
+| m_attach (is_create : bool) g p v : reachable_mp (seg_body g) -> new_shm_existing is_create g = (p, Attached v) -> reachable_mp v.
+
+Lemma reachable_mp_reachable s : reachable_mp s -> reachable s.
+Proof.
+  induction 1 as [p s0 recs s Hlen Hn Hl E|p s uid id s' e _ IH E|p s slot s' e _ IH Hr E|p s slot id s' e _ IH Hr Hfree E|p s recs s' _ IH Hlen Hag E
+                  |c g p v _ IH E].
+  - unfold load_uhash_by in E. rewrite <- (unload_same s0 Hn Hl) in E. exact (r_cold s0 recs s Hlen E).
+  - exact (r_set s uid id s' e IH E).
+  - exact (r_remove s slot s' e IH Hr E).
+  - exact (r_add s slot id s' e IH Hr Hfree E).
+  - exact (r_reload s recs s' IH Hlen Hag E).
+  - unfold new_shm_existing in E. inversion E as [[Ep Ea]]. apply attach_same in Ea. destruct Ea as [_ [_ [-> _]]]. exact IH.
+Qed.
+
+Lemma multi_process_exact s : reachable_mp s ->
+  WF s /\
+  (forall q v, search_user_raw s q = Ok v -> v <> 0 -> on_chain s (v - 1) /\ id_eq_ci q (idf s (v - 1)) = true) /\
+  (forall x q, on_chain s x -> unique_ci s x -> id_eq_ci q (idf s x) = true -> nth 0 q 0 <> 0 -> search_user_raw s q = Ok (x + 1)) /\
+  (forall q, (forall y, on_chain s y -> id_eq_ci q (idf s y) = false) -> search_user_raw s q = Ok 0) /\
+  (forall q, exists v, search_user_raw s q = Ok v) /\
+  (forall (p : proc) recs, lenZ recs <= MAXU -> agrees s recs -> exists s', load_uhash_by p s recs = Ok s' /\ reachable_mp s').
+Proof.
+  intros R. pose proof (reachable_mp_reachable s R) as R0. split; [exact (reachable_wf s R0)|].
+  destruct (lookup_exact s R0) as [H1 [H2 [H3 H4]]]. split; [exact H1|]. split; [exact H2|]. split; [exact H3|]. split; [exact H4|].
+  intros p recs Hlen Hag. destruct (reload_wf s recs (reachable_wf s R0) Hlen Hag) as [s' [E _]].
+  exists s'. split; [exact E|]. exact (m_reload p s recs s' R Hlen Hag E).
+Qed.
+
+(* ------------------------------------------------------------------ a match is a match of the WHOLE id *)
+(* Cstrcasecmp == 0 compares the complete NUL-terminated strings: an id never matches a proper prefix or a proper extension of itself *)
+Lemma match_whole_id a b : id_eq_ci a b = true <->
+  map tolower (cprefix a) = map tolower (cprefix b).
+Proof. exact (id_eq_ci_spec a b). Qed.
+Lemma match_same_length a b : id_eq_ci a b = true -> length (cprefix a) = length (cprefix b).
+Proof. intros H. apply match_whole_id in H. apply (f_equal (@length Z)) in H. rewrite !map_length in H. exact H. Qed.
+
 (* ------------------------------------------------------------------ non-vacuity *)
 Definition ex_id (l : list Z) : list Z := fixlen IDSZ l.
 Definition ex_recs : list (list Z) := [ex_id [83; 89; 83; 79; 80]; ex_id [97; 108]; ex_id []; ex_id [66; 111; 98]].   (* SYSOP al "" Bob *)
@@ -646,8 +840,64 @@ Qed.
 
 (* a state that is NOT well-formed exists (the zeroed segment: every head points at slot 0, whose id hashes elsewhere), so WF is not vacuous *)
 Example ex_reset_not_wf : ~ WF reset_st.
+Proof. exact reset_not_wf. Qed.
+
+(* the created-but-not-loaded segment loaded by a second process (IsNew = false): lookups in any letter case find the file's ids;
+   then the creator reloads on the fly and a third view answers the same *)
+Example ex_second_process_loads :
+  match new_shm_existing true (snd new_shm_create) with
+  | (p2, Attached v) =>
+      p_is_new p2 = false /\ number v = 0 /\ loaded v = 0 /\
+      match load_uhash_by p2 v ex_recs with
+      | Ok s1 => search_user_raw s1 (ex_id [115; 121; 115; 111; 112]) = Ok 1 /\ search_user_raw s1 (ex_id [98; 79; 98]) = Ok 4 /\
+                 search_user_raw s1 (ex_id [110; 111]) = Ok 0 /\ loaded s1 = 1 /\ number s1 = 4 /\
+                 match load_uhash_by creator s1 ex_recs with
+                 | Ok s2 => search_user_raw s2 (ex_id [65; 76]) = Ok 2 /\ loaded s2 = 1
+                 | _ => False
+                 end
+      | _ => False
+      end
+  | _ => False
+  end.
+Proof. vm_compute. repeat split; reflexivity. Qed.
+
+Example ex_reachable_mp : exists s, reachable_mp s /\ on_chain s 0.
 Proof.
-  intros W. destruct (W 0) as [l [Hc [Hnd Hx]]]; [unfold hash_ok; pose proof HASHN_pos; lia|].
-  unfold hd, reset_st in Hc. cbn [head] in Hc. rewrite tget_tconst in Hc. inversion Hc as [|p l' Hp Hc' E1 E2]; subst.
-  destruct (Hx 0 (or_introl eq_refl)) as [_ Hh]. vm_compute in Hh. discriminate.
+  destruct (load_any_process (mkproc false) reset_st ex_recs) as [H _]; [vm_compute; discriminate|].
+  destruct (H eq_refl eq_refl) as [s1 [E1 [W1 _]]].
+  assert (R1 : reachable_mp s1) by (eapply (m_cold (mkproc false) reset_st ex_recs); [vm_compute; discriminate|reflexivity|reflexivity|exact E1]).
+  assert (Hr : in_range 0 = true) by reflexivity.
+  destruct (remove_wf s1 0 W1 Hr) as [s2 [E2 [W2 [_ [Hon2 _]]]]].
+  assert (R2 : reachable_mp s2) by (eapply (m_remove creator); eauto).
+  assert (Hfree : ~ on_chain s2 0) by (intros Hx; apply Hon2 in Hx; destruct Hx as [_ Hx]; congruence).
+  destruct (add_wf s2 0 (ex_id [90; 101; 100]) W2 Hr Hfree) as [s3 [E3 [W3 [Hid [_ [Hon3 _]]]]]].
+  exists s3. split; [eapply (m_add (mkproc false)); eauto|]. apply Hon3; right; reflexivity.
 Qed.
+
+(* a prefix pair on ONE chain: "bobgal" (slot 0) and "bob" (slot 1) collide in the 16-bit hash and the longer one comes first.
+   Each spelling finds its own slot; "bo", "bobga", "bobgal1" find nothing; with "bob" removed "bob" finds nothing although "bobgal" is
+   still ahead on that chain; and with "tu1" - which shares the empty id's bucket - in slot 0, the free-slot search DoSearchUserRaw("")
+   returns the first slot that holds the empty id, not slot 0 *)
+Definition ex_bob : list Z := ex_id [98; 111; 98].
+Definition ex_bobgal : list Z := ex_id [98; 111; 98; 103; 97; 108].
+Example ex_prefix_pair :
+  uhash ex_bob = uhash ex_bobgal /\ id_eq_ci ex_bob ex_bobgal = false /\ id_eq_ci ex_bobgal ex_bob = false /\
+  match load_uhash (unload reset_st) [ex_bobgal; ex_bob; ex_id []] with
+  | Ok s1 =>
+      obs_chain s1 (uhash ex_bob) = [uhash ex_bob; 2; 0; 1; -1] /\
+      search_user_raw s1 ex_bob = Ok 2 /\ search_user_raw s1 (ex_id [66; 79; 66]) = Ok 2 /\
+      search_user_raw s1 ex_bobgal = Ok 1 /\ search_user_raw s1 (ex_id [66; 111; 98; 71; 65; 76]) = Ok 1 /\
+      search_user_raw s1 (ex_id [98; 111]) = Ok 0 /\ search_user_raw s1 (ex_id [98; 111; 98; 103; 97]) = Ok 0 /\
+      search_user_raw s1 (ex_id [98; 111; 98; 103; 97; 108; 49]) = Ok 0 /\
+      match remove_from_uhash s1 1 with
+      | Ok (s2, 0) => search_user_raw s2 ex_bob = Ok 0 /\ search_user_raw s2 (ex_id [66; 79; 66]) = Ok 0 /\ search_user_raw s2 ex_bobgal = Ok 1
+      | _ => False
+      end
+  | _ => False
+  end /\
+  match load_uhash (unload reset_st) [ex_id [116; 117; 49]; ex_id []; ex_id []] with
+  | Ok s1 => uhash (ex_id [116; 117; 49]) = uhash (ex_id []) /\ obs_chain s1 (uhash (ex_id [])) = [uhash (ex_id []); 3; 0; 1; 2; -1] /\
+             do_search_user_raw s1 (ex_id []) = Ok 2 /\ search_user_raw s1 (ex_id [84; 85; 49]) = Ok 1 /\ search_user_raw s1 (ex_id [116; 117]) = Ok 0
+  | _ => False
+  end.
+Proof. vm_compute. repeat split; reflexivity. Qed.
